@@ -38,7 +38,7 @@ func init() {
 	)
 
 	const authOld = "\tuser, password, ok := request.BasicAuth()\n\n\tif !ok {\n\t\tresponse.Header().Set(\"WWW-Authenticate\", \"Basic realm=\\\"\"+b.realm+\"\\\"\")\n\t\treturn false\n\t}\n\n\treturn b.secrets.Match(user, password)\n"
-	addRound4("C07", "(R1) between the entry of ServeHTTP and the hand-over to the handler that talks to the upstream, every change fabio makes to the header map of the client's response writer (Set/Add/Del/index store on w.Header(), in ServeHTTP, in the repository functions the writer is passed to, and in the implementations of the interfaces it is passed through, e.g. the auth schemes) either uses a header fabio manages by configuration (Strict-Transport-Security) or lies on a path on which fabio answers the request itself: no hand-over is reachable from it, every return reachable from it yields one and the same constant verdict (or a nil target / a non-nil error), and every caller up to ServeHTTP, on that verdict, stops and answers itself - httputil.ReverseProxy ADDS the upstream's headers to what is already in the map, so anything left there on a forwarding path reaches the client as a header the upstream never sent (or in front of the upstream's own values).", runC07R1,
+	addRound4("C07", "(R1) between the entry of ServeHTTP and the hand-over to the handler that talks to the upstream, every change fabio makes to the header map of the client's response writer (Set/Add/Del/index store on w.Header(), in ServeHTTP, in the repository functions the writer is passed to, and in the implementations of the interfaces it is passed through, e.g. the auth schemes) either uses a header fabio manages by configuration (Strict-Transport-Security) or lies on a path on which fabio answers the request itself: no hand-over is reachable from it, every return reachable from it yields - on the paths that come from there - one and the same constant verdict (or a nil target / a non-nil error, also a package-level sentinel that is only ever set to one / constant status codes), and every caller up to ServeHTTP, on that verdict (tested directly, after a merge into a variable, or by a comparison of the status code that comes out the same for every answered status), stops and answers itself - httputil.ReverseProxy ADDS the upstream's headers to what is already in the map, so anything left there on a forwarding path reaches the client as a header the upstream never sent (or in front of the upstream's own values).", runC07R1,
 		mutant{Name: "auth scheme sets the challenge before looking at the credentials", File: "auth/basic.go", Old: authOld,
 			New: "\tresponse.Header().Set(\"WWW-Authenticate\", \"Basic realm=\\\"\"+b.realm+\"\\\"\")\n\tuser, password, ok := request.BasicAuth()\n\tif !ok {\n\t\treturn false\n\t}\n\n\treturn b.secrets.Match(user, password)\n", Expect: "C07.R1"},
 		mutant{Name: "auth scheme sets the challenge through a helper on the way in", File: "auth/basic.go", Old: authOld,
@@ -59,7 +59,7 @@ func init() {
 
 func init() {
 	const keyFn = "func key(code int) string {"
-	addRound4("C07", "(R2) wherever fabio writes a status or body bytes to the client's response writer itself before the hand-over (WriteHeader / Write on it, http.Error, http.Redirect, io.WriteString, fmt.Fprint ... - in ServeHTTP, in the functions the writer is passed to or carried into, behind interfaces) the request ends there: no hand-over is reachable from the site, every return reachable from it yields one constant verdict (or nil target / non-nil error), and every caller up to ServeHTTP stops on that verdict - otherwise the client receives fabio's status with the upstream's body appended instead of the upstream's response, and a request that was refused reaches an upstream.", runC07R2,
+	addRound4("C07", "(R2) wherever fabio writes a status or body bytes to the client's response writer itself before the hand-over (WriteHeader / Write on it, http.Error, http.Redirect, io.WriteString, fmt.Fprint ... - in ServeHTTP, in the functions the writer is passed to or carried into, behind interfaces) the request ends there: no hand-over is reachable from the site, every return reachable from it yields one constant verdict on the paths that come from there (or nil target / non-nil error / constant status codes), and every caller up to ServeHTTP stops on that verdict - otherwise the client receives fabio's status with the upstream's body appended instead of the upstream's response, and a request that was refused reaches an upstream.", runC07R2,
 		mutant{Name: "access denied is answered but the request goes on", File: "proxy/http_proxy.go", Old: "\t\thttp.Error(w, \"access denied\", http.StatusForbidden)\n\t\treturn\n", New: "\t\thttp.Error(w, \"access denied\", http.StatusForbidden)\n", Expect: "C07.R2"},
 		mutant{Name: "bad remote address is answered with 500 but the request goes on", File: "proxy/http_proxy.go", Old: "\t\thttp.Error(w, \"cannot parse \"+r.RemoteAddr, http.StatusInternalServerError)\n\t\treturn\n", New: "\t\thttp.Error(w, \"cannot parse \"+r.RemoteAddr, http.StatusInternalServerError)\n", Expect: "C07.R2"},
 		mutant{Name: "auth scheme writes the 401 status itself before looking at the credentials", File: "auth/basic.go", Old: "\tuser, password, ok := request.BasicAuth()\n\n\tif !ok {\n", New: "\tuser, password, ok := request.BasicAuth()\n\tresponse.WriteHeader(http.StatusUnauthorized)\n\tif !ok {\n", Expect: "C07.R2"},
@@ -315,6 +315,9 @@ func c07prefixTest(cond ssa.Value, field string, d int) bool {
 				other = true
 			}
 		}
+		if mc, isClosure := x.Call.Value.(*ssa.MakeClosure); isClosure && len(mc.Bindings) > 0 {
+			other = true // a local closure: the option it tests against is captured (`hasStrip := func(s string) bool {..t.StripPath..}`)
+		}
 		return fam && (other || len(x.Call.Args) >= 2)
 	}
 	return false
@@ -450,13 +453,14 @@ func runC07U3(c *Ctx) {
 var c07managedResponseHeaders = map[string]bool{"Strict-Transport-Security": true}
 
 type c07r1 struct {
-	c       *Ctx
-	serve   *ssa.Function
-	rwIface *types.Interface
-	ci      *contactInfo
-	callers map[*ssa.Function][]ssa.CallInstruction // the calls through which the writer (or its header map) reaches a function
-	fns     []*ssa.Function                         // ServeHTTP and the functions the writer is handed to before the hand-over
-	fwdMemo map[ssa.Instruction]bool
+	c        *Ctx
+	serve    *ssa.Function
+	rwIface  *types.Interface
+	ci       *contactInfo
+	callers  map[*ssa.Function][]ssa.CallInstruction // the calls through which the writer (or its header map) reaches a function
+	fns      []*ssa.Function                         // ServeHTTP and the functions the writer is handed to before the hand-over
+	fwdMemo  map[ssa.Instruction]bool
+	globMemo map[*ssa.Global]bool
 }
 
 // c07isHandlerServe: the call hands request and response writer over to an http.Handler: h.ServeHTTP(w, r) on an
@@ -653,47 +657,96 @@ func c07isHandlerFn(fn *ssa.Function) bool {
 }
 
 // c07verdict: the result by which a function tells its caller whether the request goes on: a bool (false rejects),
-// else an error (non-nil rejects), else a pointer-like result (nil rejects: `t := p.admit(w, r); if t == nil { return }`).
+// else an error (non-nil rejects), else a pointer-like result (nil rejects: `t := p.admit(w, r); if t == nil { return }`),
+// else an integer (`if code := p.refuse(w, r, t); code != 0 { return }`).
 type c07verdict struct {
 	idx  int
-	kind int // 0 bool, 1 error, 2 nil-able
+	kind int     // 0 bool, 1 error, 2 nil-able, 3 integer (a status code; which values reject is taken from the code)
+	ks   []int64 // kind 3: the constants the function returns after it has answered
 }
 
 func c07verdictOf(fn *ssa.Function) (c07verdict, bool) {
 	res := fn.Signature.Results()
 	for k := 0; k < res.Len(); k++ {
 		if b, ok := res.At(k).Type().Underlying().(*types.Basic); ok && b.Kind() == types.Bool {
-			return c07verdict{k, 0}, true
+			return c07verdict{idx: k, kind: 0}, true
 		}
 	}
 	for k := 0; k < res.Len(); k++ {
 		if typeStr(res.At(k).Type()) == "error" {
-			return c07verdict{k, 1}, true
+			return c07verdict{idx: k, kind: 1}, true
 		}
 	}
 	for k := 0; k < res.Len(); k++ {
 		switch res.At(k).Type().Underlying().(type) {
 		case *types.Pointer, *types.Interface, *types.Map, *types.Slice, *types.Signature:
-			return c07verdict{k, 2}, true
+			return c07verdict{idx: k, kind: 2}, true
 		}
 	}
-	return c07verdict{-1, 0}, false
+	for k := 0; k < res.Len(); k++ {
+		if b, ok := res.At(k).Type().Underlying().(*types.Basic); ok && b.Info()&types.IsInteger != 0 {
+			return c07verdict{idx: k, kind: 3}, true
+		}
+	}
+	return c07verdict{idx: -1}, false
+}
+
+// c07from: a position in a function and the blocks that can execute after it. A verdict that is a phi in one of those
+// blocks is judged on the edges that can be taken after the position only: in the single-exit style (`stop := false;
+// if denied { answer; stop = true }; return stop`) the one return yields phi(false, true), but on the paths that come
+// from the answer it yields true.
+type c07from struct {
+	b     *ssa.BasicBlock
+	after map[*ssa.BasicBlock]bool // blocks reachable from b by at least one edge
+}
+
+func c07fromPos(b *ssa.BasicBlock) *c07from {
+	f := &c07from{b: b, after: map[*ssa.BasicBlock]bool{}}
+	stack := append([]*ssa.BasicBlock{}, b.Succs...)
+	for len(stack) > 0 {
+		x := stack[len(stack)-1]
+		stack = stack[:len(stack)-1]
+		if f.after[x] {
+			continue
+		}
+		f.after[x] = true
+		stack = append(stack, x.Succs...)
+	}
+	return f
+}
+
+// edges: the values the phi can take on the paths that pass the position. A phi of a block that does not execute
+// after the position was evaluated before it: all of its edges count.
+func (f *c07from) edges(phi *ssa.Phi) []ssa.Value {
+	if f == nil || !f.after[phi.Block()] {
+		return phi.Edges
+	}
+	var out []ssa.Value
+	for k, e := range phi.Edges {
+		if k < len(phi.Block().Preds) {
+			if p := phi.Block().Preds[k]; p == f.b || f.after[p] {
+				out = append(out, e)
+			}
+		}
+	}
+	return out
 }
 
 // c07rejecting: the returned verdict says "do not go on": the constant false (a merge of them); for an error a value
-// that is not nil (a fresh error, a concrete value boxed into the interface, a value known to be non-nil at the
-// return); for a nil-able result the constant nil.
-func c07rejecting(v ssa.Value, kind int, at *ssa.BasicBlock, d int) bool {
+// that is not nil (a fresh error, a concrete value boxed into the interface, a package-level sentinel that is only
+// ever set to such a value, a value known to be non-nil at the return); for a nil-able result the constant nil.
+func (r *c07r1) rejecting(v ssa.Value, kind int, at *ssa.BasicBlock, from *c07from, d int) bool {
 	if d > 4 {
 		return false
 	}
 	if phi, ok := v.(*ssa.Phi); ok {
-		for _, e := range phi.Edges {
-			if !c07rejecting(e, kind, nil, d+1) {
+		es := from.edges(phi)
+		for _, e := range es {
+			if !r.rejecting(e, kind, nil, from, d+1) {
 				return false
 			}
 		}
-		return len(phi.Edges) > 0
+		return len(es) > 0
 	}
 	switch kind {
 	case 0:
@@ -713,8 +766,58 @@ func c07rejecting(v ssa.Value, kind int, at *ssa.BasicBlock, d int) bool {
 		case "errors.New", "fmt.Errorf":
 			return true
 		}
+	case *ssa.UnOp:
+		if g, ok := x.X.(*ssa.Global); ok && x.Op == token.MUL && r.nonNilGlobal(g) {
+			return true
+		}
 	}
 	return at != nil && knownNonNil(at, sameVal(v))
+}
+
+// nonNilGlobal: the package-level variable g (a sentinel: `var errRefused = errors.New("refused")`) is never nil: it
+// is stored to at least once, every store in the program stores a non-nil error, and its address is used for nothing
+// but loads and stores.
+func (r *c07r1) nonNilGlobal(g *ssa.Global) bool {
+	if v, ok := r.globMemo[g]; ok {
+		return v
+	}
+	r.globMemo[g] = false
+	fns := append([]*ssa.Function{}, r.c.AllFns...)
+	if g.Pkg != nil {
+		if initFn := g.Pkg.Func("init"); initFn != nil {
+			fns = append(fns, initFn)
+		}
+	}
+	stores, ok := 0, true
+	for _, fn := range fns {
+		eachInstr(fn, func(i ssa.Instruction) {
+			for _, op := range i.Operands(nil) {
+				if op == nil || *op != ssa.Value(g) {
+					continue
+				}
+				switch x := i.(type) {
+				case *ssa.UnOp:
+					if x.Op != token.MUL {
+						ok = false
+					}
+				case *ssa.Store:
+					if x.Addr != ssa.Value(g) {
+						ok = false // the address itself is stored somewhere
+						continue
+					}
+					stores++
+					if !r.rejecting(x.Val, 1, nil, nil, 1) {
+						ok = false
+					}
+				case *ssa.DebugRef:
+				default:
+					ok = false
+				}
+			}
+		})
+	}
+	r.globMemo[g] = ok && stores > 0
+	return r.globMemo[g]
 }
 
 // c07instrsFrom: the instructions that can execute after position (b, idx), b.Instrs[idx] included.
@@ -780,18 +883,26 @@ func (r *c07r1) rejectFrom(f *ssa.Function, b *ssa.BasicBlock, idx int, depth in
 		return true, ""
 	}
 	rejTrue, known := false, false
+	from := c07fromPos(b)
 	for _, ret := range rets {
 		if vd.idx >= len(ret.Results) {
 			return false, fnKey(f) + " returns without a verdict"
 		}
 		v := ret.Results[vd.idx]
 		ok := false
-		if vd.kind == 0 {
-			if bv, isK := c07constVerdict(v, 0); isK && (!known || bv == rejTrue) {
+		switch vd.kind {
+		case 0:
+			if bv, isK := c07constVerdict(v, from, 0); isK && (!known || bv == rejTrue) {
 				rejTrue, known, ok = bv, true, true
 			}
-		} else {
-			ok = c07rejecting(v, vd.kind, ret.Block(), 0)
+		case 3:
+			// a status code: the constants returned after the answer; what they mean is decided where the callers
+			// compare them (honoured)
+			if ks, isK := c07constInts(v, from, 0); isK {
+				vd.ks, ok = append(vd.ks, ks...), true
+			}
+		default:
+			ok = r.rejecting(v, vd.kind, ret.Block(), from, 0)
 		}
 		if !ok {
 			return false, fnKey(f) + " can return from there with a verdict that lets the request go on (" + r.c.pos(ret.Pos()) + ": not the same constant verdict on every return after it)"
@@ -803,25 +914,52 @@ func (r *c07r1) rejectFrom(f *ssa.Function, b *ssa.BasicBlock, idx int, depth in
 	return r.honoured(f, vd, rejTrue, depth+1)
 }
 
-// c07constVerdict: the bool v is one constant (also as a merge of equal constants).
-func c07constVerdict(v ssa.Value, d int) (bool, bool) {
+// c07constVerdict: the bool v is one constant (also as a merge of equal constants) on the paths that pass `from`.
+func c07constVerdict(v ssa.Value, from *c07from, d int) (bool, bool) {
 	if b, ok := constBool(v); ok {
 		return b, true
 	}
 	phi, ok := v.(*ssa.Phi)
-	if !ok || d > 3 || len(phi.Edges) == 0 {
+	if !ok || d > 3 {
 		return false, false
 	}
-	first, okFirst := c07constVerdict(phi.Edges[0], d+1)
+	es := from.edges(phi)
+	if len(es) == 0 {
+		return false, false
+	}
+	first, okFirst := c07constVerdict(es[0], from, d+1)
 	if !okFirst {
 		return false, false
 	}
-	for _, e := range phi.Edges[1:] {
-		if b, ok := c07constVerdict(e, d+1); !ok || b != first {
+	for _, e := range es[1:] {
+		if b, ok := c07constVerdict(e, from, d+1); !ok || b != first {
 			return false, false
 		}
 	}
 	return first, true
+}
+
+// c07constInts: the integer v is a constant, or a merge of constants, on the paths that pass `from`.
+func c07constInts(v ssa.Value, from *c07from, d int) ([]int64, bool) {
+	if cv, ok := v.(*ssa.Convert); ok {
+		v = cv.X
+	}
+	if k, ok := constInt(v); ok {
+		return []int64{k}, true
+	}
+	phi, ok := v.(*ssa.Phi)
+	if !ok || d > 3 {
+		return nil, false
+	}
+	var out []int64
+	for _, e := range from.edges(phi) {
+		ks, ok := c07constInts(e, from, d+1)
+		if !ok {
+			return nil, false
+		}
+		out = append(out, ks...)
+	}
+	return out, len(out) > 0
 }
 
 // honoured: every caller of f (through which the writer came) turns f's rejecting verdict (for a bool: the value
@@ -852,7 +990,7 @@ func (r *c07r1) honoured(f *ssa.Function, vd c07verdict, rejTrue bool, depth int
 		}
 		used := 0
 		for _, v := range vals {
-			ok, why, n := r.verdictUses(v, vd.kind, rejTrue, depth)
+			ok, why, n := r.verdictUses(v, vd, rejTrue, depth)
 			if !ok {
 				return false, why
 			}
@@ -865,12 +1003,16 @@ func (r *c07r1) honoured(f *ssa.Function, vd c07verdict, rejTrue bool, depth int
 	return true, ""
 }
 
-// verdictUses: the uses of the verdict value v (of the given kind) honour it; n counts the uses that decide something.
-// For an error or a nil-able verdict only the comparisons with nil and the returns are looked at (the value itself is
-// used for other things: the message of the error, the fields of the target).
-func (r *c07r1) verdictUses(v ssa.Value, kind int, rejTrue bool, depth int) (bool, string, int) {
+// verdictUses: the uses of the verdict value v honour it; n counts the uses that decide something. For an error, a
+// nil-able or an integer verdict only the comparisons (with nil / with a constant), the merges and the returns are
+// looked at (the value itself is used for other things: the message of the error, the fields of the target, a log line).
+func (r *c07r1) verdictUses(v ssa.Value, vd c07verdict, rejTrue bool, depth int) (bool, string, int) {
+	kind := vd.kind
 	if kind == 0 {
 		return r.boolUses(v, rejTrue, depth)
+	}
+	if depth > 10 {
+		return false, "the verdict travels too far to follow", 0
 	}
 	refs := v.Referrers()
 	if refs == nil {
@@ -891,11 +1033,46 @@ func (r *c07r1) verdictUses(v ssa.Value, kind int, rejTrue bool, depth int) (boo
 			if k < 0 || !has || gv.idx != k || gv.kind != kind {
 				return false, fnKey(g) + " hands the verdict on in a result that is not its own verdict", n
 			}
+			gv.ks = vd.ks
 			if ok, why := r.honoured(g, gv, false, depth+1); !ok {
 				return false, why, n
 			}
 			n++
+		case *ssa.Phi:
+			// merged with other values (`code := 0; if x { code = p.refuse(..) }`): when the call rejected, the merge
+			// has the call's value
+			ok, why, m := r.verdictUses(x, vd, rejTrue, depth+1)
+			if !ok {
+				return false, why, n
+			}
+			n += m
+		case *ssa.Convert:
+			if kind != 3 {
+				continue
+			}
+			ok, why, m := r.verdictUses(x, vd, rejTrue, depth+1)
+			if !ok {
+				return false, why, n
+			}
+			n += m
 		case *ssa.BinOp:
+			if kind == 3 {
+				// code != 0, code >= 400, code == http.StatusForbidden: the outcome for the constants the function
+				// returns after it has answered
+				truth, decided := c07cmpOutcome(x, v, vd.ks)
+				if !decided {
+					if _, isCmp := c07cmpConst(x, v); isCmp {
+						return false, "the status verdict is compared (" + r.c.pos(x.Pos()) + ") with a constant that does not tell the answered statuses from the others: the rule cannot follow it", n
+					}
+					continue
+				}
+				ok, why, m := r.boolUses(x, truth, depth)
+				if !ok {
+					return false, why, n
+				}
+				n += m
+				continue
+			}
 			if (x.Op != token.NEQ && x.Op != token.EQL) || !(isNilConst(x.X) || isNilConst(x.Y)) {
 				continue
 			}
@@ -909,6 +1086,62 @@ func (r *c07r1) verdictUses(v ssa.Value, kind int, rejTrue bool, depth int) (boo
 		}
 	}
 	return true, "", n
+}
+
+// c07cmpConst: b compares v with an integer constant; the constant as the right operand (the operator mirrored when
+// the constant is written on the left).
+func c07cmpConst(b *ssa.BinOp, v ssa.Value) (struct {
+	op token.Token
+	k  int64
+}, bool) {
+	type res = struct {
+		op token.Token
+		k  int64
+	}
+	switch b.Op {
+	case token.EQL, token.NEQ, token.LSS, token.LEQ, token.GTR, token.GEQ:
+	default:
+		return res{}, false
+	}
+	if k, ok := constInt(b.Y); ok && b.X == v {
+		return res{b.Op, k}, true
+	}
+	if k, ok := constInt(b.X); ok && b.Y == v {
+		mirror := map[token.Token]token.Token{token.EQL: token.EQL, token.NEQ: token.NEQ, token.LSS: token.GTR, token.LEQ: token.GEQ, token.GTR: token.LSS, token.GEQ: token.LEQ}
+		return res{mirror[b.Op], k}, true
+	}
+	return res{}, false
+}
+
+// c07cmpOutcome: the comparison b of the verdict v with a constant has the same outcome for every value of ks (the
+// statuses the function returns after it has answered): that outcome.
+func c07cmpOutcome(b *ssa.BinOp, v ssa.Value, ks []int64) (truth, decided bool) {
+	c, ok := c07cmpConst(b, v)
+	if !ok || len(ks) == 0 {
+		return false, false
+	}
+	eval := func(x int64) bool {
+		switch c.op {
+		case token.EQL:
+			return x == c.k
+		case token.NEQ:
+			return x != c.k
+		case token.LSS:
+			return x < c.k
+		case token.LEQ:
+			return x <= c.k
+		case token.GTR:
+			return x > c.k
+		}
+		return x >= c.k
+	}
+	truth = eval(ks[0])
+	for _, x := range ks[1:] {
+		if eval(x) != truth {
+			return false, false
+		}
+	}
+	return truth, true
 }
 
 // boolUses: every use of the boolean x honours it; rejOnTrue says which of its values means "the request ends here".
@@ -930,9 +1163,21 @@ func (r *c07r1) boolUses(x ssa.Value, rejOnTrue bool, depth int) (bool, string, 
 
 func (r *c07r1) boolUse(x ssa.Value, ref ssa.Instruction, rejOnTrue bool, depth int) (bool, string, int) {
 	g := ref.Parent()
+	if depth > 10 {
+		return false, "the verdict travels too far to follow", 0
+	}
 	switch y := ref.(type) {
 	case *ssa.DebugRef:
 		return true, "", 0
+	case *ssa.Phi:
+		// merged into a variable (`authorized := !denied && t.Authorized(..)`, `ok := true; if x { ok = f() }`): when
+		// the verdict is the rejecting value the merge has that value too
+		return r.boolUses(y, rejOnTrue, depth+1)
+	case *ssa.BinOp:
+		// ok == false, ok != true
+		if k, isK := constBool(y.Y); isK && y.X == x && (y.Op == token.EQL || y.Op == token.NEQ) {
+			return r.boolUses(y, rejOnTrue == ((y.Op == token.EQL) == k), depth+1)
+		}
 	case *ssa.UnOp:
 		if y.Op == token.NOT {
 			return r.boolUses(y, !rejOnTrue, depth)
@@ -1008,7 +1253,7 @@ func c07newR1(c *Ctx, rule string) *c07r1 {
 	if serve == nil {
 		return nil // G1 has reported the missing anchor
 	}
-	r := &c07r1{c: c, serve: serve, ci: &contactInfo{}, callers: map[*ssa.Function][]ssa.CallInstruction{}, fwdMemo: map[ssa.Instruction]bool{}}
+	r := &c07r1{c: c, serve: serve, ci: &contactInfo{}, callers: map[*ssa.Function][]ssa.CallInstruction{}, fwdMemo: map[ssa.Instruction]bool{}, globMemo: map[*ssa.Global]bool{}}
 	for _, p := range serve.Params {
 		if typeStr(p.Type()) == "net/http.ResponseWriter" {
 			r.rwIface, _ = p.Type().Underlying().(*types.Interface)
@@ -1108,5 +1353,7 @@ func runC07R2(c *Ctx) {
 				"fabio writes a status / body of its own ("+how+") on a path that goes on to the upstream: "+why+". The upstream's status is then dropped (superfluous WriteHeader) and its body is appended to fabio's - the client must receive the upstream's status and body bytes unchanged, and a request fabio answers itself (no route, access denied, authorization failed, redirect, bad remote address) must not reach an upstream. After its own answer every path must return, and every caller up to ServeHTTP must stop as well")
 		})
 	}
-	c.atLeast("C07.R2", "answers written by fabio itself (no-route page, access denied, authorization failed, redirect)", nOwn, 3)
+	// one site is what the property needs (the no-route answer); today there are seven, but they may all be routed
+	// through one answering helper
+	c.atLeast("C07.R2", "answers written by fabio itself (no-route page, access denied, authorization failed, redirect)", nOwn, 1)
 }
